@@ -107,4 +107,27 @@ CONF["C04"] = {
     "assumptions": ["burst-error detection theorem for CRC-16 (generator x^16+x^15+x^2+1 has a non-zero constant term)"],
 }
 
+CONF["C10"] = {
+    "pkg": "c10",
+    "level": "exploration",
+    "technique": "rapid-generated valid files and chains read through a counting chunking reader followed by sentinel bytes; exact frame arithmetic as oracle, differential DecodeChained vs Decode, chunking invariance",
+    "level_text": "Generated search: valid files (Encode output, generated streams incl. ones larger than the 4096-byte buffer, repository files) alone and in chains of up to 4, read through whole/1-byte/fixed/list/data+EOF chunkings with a reader that counts exactly what the library consumes. Oracles: consumed == header+data size+2 on success, never more on failure (corrupted variant), header-only calls consume exactly the header, DecodeChained == per-file Decode, DecodeHeader/DecodeHeaderAndFileID == Decode's header and file_id, results invariant under chunking.",
+    "level_note": "Trusted: the counting reader sits directly under the library (no read-ahead layer in between); files carry exactly one file_id message. Record.Distance from compressed_speed_distance is left out of chain-vs-single comparisons while finding K1 is open.",
+    "quick": {"checks": 700, "timeout": 400, "shrinktime": "10s"},
+    "thorough": {"checks": 20000, "timeout": 2400, "shards": 8, "shrinktime": "30s"},
+    "rule": "chains: 1..4 valid files x a drawn chunking x 0..20 sentinel bytes (15%+ with a byte of the first data area corrupted = failing-decode variant); non-trivial = a chain of at least 2 files read with a chunking that does not respect frame boundaries, or a file larger than the decoder's 4096-byte buffer; distinct by fingerprint of (files, chunking). corpus: every repository file that is one valid frame x 6 standard chunkings x alone/doubled.",
+    "assumptions": ["gen.Reader counts delivered bytes exactly"],
+}
+CONF["C11"] = {
+    "pkg": "c11",
+    "level": "fault_enumeration",
+    "technique": "fault enumeration: every cut offset and every read-fault offset (two fault styles) of rapid-generated single and chained streams and of repository files, through all six entry points; need(entry) model and complete-record model from the reference interpreter as oracle",
+    "level_text": "Fault enumeration: for generated single and chained streams every byte offset is used as a clean cut, as a (0,err) fault and as an (n>0,err) fault, under three chunkings, for Decode, DecodeChained, CheckIntegrity (both modes), DecodeHeader and DecodeHeaderAndFileID; repository files are cut/faulted at every offset within 3 bytes of a record boundary plus a stride. The oracle says which entry points must fail (offset < bytes the entry point needs), the single exception (clean EOF on a chain boundary), and exactly which messages a partial File must contain (reference interpreter run on the records complete before the offset).",
+    "level_note": "Trusted: harness stream layout (record end offsets) and reference interpreter; need(entry) = header size / end of first file_id record / frame / whole chain (+ clean EOF for faults). For offsets at or beyond need the call must succeed (reading of 'every entry point returns an error' that does not blame DecodeHeader for a cut in the data area).",
+    "quick": {"checks": 10, "timeout": 400, "shrinktime": "10s"},
+    "thorough": {"checks": 600, "timeout": 2400, "shards": 8, "shrinktime": "30s"},
+    "rule": "streams: each rapid case draws 1..3 generated streams (chained) and enumerates every offset 0..len x {cut, fault, fault-with-data} x 6 entry points; each (stream, offset, mode) is distinct and counted non-trivial; offsets are classified (inside a header, a definition, a data record, the file CRC, on a record boundary, on a chained file boundary, first byte of a later header). corpus: repository files <= 3000 bytes (thorough 60000) at every offset within +-3 of a record end, the first/last 16 bytes and a stride of 97.",
+    "assumptions": ["reference interpreter + layout give the set of records complete before an offset"],
+}
+
 NOT_APPLICABLE = {}
